@@ -339,6 +339,16 @@ def run(scn):
                         B1 = np.array(h_.solution.field_at_position(pts, zs=z, units="T", with_units=False), dtype=float, copy=True)
                         B2 = np.array(h_.solution.field_at_position(pts, zs=z, units="T", with_units=False), dtype=float, copy=True)
                         Kb = np.array(h_.solution.current_density.to("A/m").magnitude, copy=True)
+                        # the vector potential (applied + currents) at the same points: requested in a
+                        # fixed SI unit, and in the solution's own units converted afterwards
+                        if scn["drive"]["field"]["kind"] == "plain":
+                            # (a plain python callable as applied potential makes this method raise in
+                            # every unit system - outside this property, see DESIGN 9.4)
+                            Av = An = np.zeros((len(pts), 3))
+                        else:
+                            Av = np.array(h_.solution.vector_potential_at_position(pts, zs=z, units="T * m", with_units=False), dtype=float, copy=True)
+                            Aq = h_.solution.vector_potential_at_position(pts, zs=z, with_units=True)
+                            An = np.array(Aq.to("T * m").magnitude, dtype=float, copy=True)
                     except Exception as e:
                         tb_ = __import__("traceback").extract_tb(e.__traceback__)
                         if not any("/tdgl/" in f_.filename for f_ in tb_):
@@ -346,7 +356,11 @@ def run(scn):
                         V.append(Violation("post-processing-raised", f"Solution post-processing raised {type(e).__name__}: {str(e)[:100]}", **where))
                         outs = None
                         break
-                    outs.append((Ka, B1, B2, Kb))
+                    outs.append((Ka, B1, B2, Kb, Av))
+                    refA = max(float(np.max(np.abs(Av), initial=0.0)), float(np.max(np.abs(An), initial=0.0)), si.MU0 * K_peak * xi_m) + 1e-300
+                    if float(np.max(np.abs(Av - An))) > 1e-9 * refA:
+                        V.append(Violation("output-units", f"Solution.vector_potential_at_position ({c_.lu}, {c_.fu}, {c_.cu}): the value requested in T*m differs from the value in the solution's own units converted to T*m by {float(np.max(np.abs(Av - An))) / refA:.3g} relative", **where))
+                        break
                     refB = max(float(np.max(np.abs(B1), initial=0.0)), si.MU0 * K_peak) + 1e-300
                     refK = max(float(np.max(np.abs(Ka), initial=0.0)), K_peak) + 1e-300
                     if float(np.max(np.abs(B1 - B2))) > 1e-9 * refB or float(np.max(np.abs(Ka - Kb))) > 1e-9 * refK:
@@ -357,6 +371,10 @@ def run(scn):
                     dB = float(np.max(np.abs(outs[0][1] - outs[1][1])))
                     if dB > 1e-6 * refB:
                         V.append(Violation("physical-output", f"Solution.field_at_position in T at the same physical points differs by {dB / refB:.3g} relative between the unit systems", **where))
+                    refA = max(float(np.max(np.abs(outs[0][4]), initial=0.0)), si.MU0 * K_peak * get_ctx(sim1).xi * si.PREFIX[get_ctx(sim1).lu]) + 1e-300
+                    dA = float(np.max(np.abs(outs[0][4] - outs[1][4])))
+                    if dA > 1e-6 * refA:
+                        V.append(Violation("physical-output", f"Solution.vector_potential_at_position in T*m at the same physical points differs by {dA / refA:.3g} relative between the unit systems", **where))
             # independent SI value of the sheet current density: (K0/4) x site-averaged edge value ... x 4
             c = get_ctx(sim1)
             J = np.asarray(t1[-1]["out"]["supercurrent"]) + np.asarray(t1[-1]["out"]["normal_current"]) if t1 else None
